@@ -63,7 +63,7 @@ func verifC13CheckRec(got []OffsetAndSizeAndSlot, next indexes.OffsetAndSize, r 
 }
 
 func VerifC13LinkedLog() {
-	shapes := [][]int{{2, 1}, {1, 3}, {1, 1, 1}}
+	shapes := [][]int{{2, 1}, {1, 3}, {1, 1, 1}, {30, 1}} // {30,1}: first record 131 bytes (2-byte length prefix)
 	counts := shapes[verifChoice("shape", verifParam("shapes", 2))]
 	path := verifTempPath("linked-log")
 	recs := verifC13WriteLog(path, counts)
